@@ -23,11 +23,14 @@ CheckGuise(k) ==
        /\ (~C15_Comparable(n, route, o) => PFail(k, "Comparable"))
        /\ (~C15_EqOp(n, cfg, o) => PFail(k, "EqOp"))
        /\ (~C15_Ratio(n, cfg, o) => PFail(k, "Ratio"))
+       /\ (~C15_ShownNumber(route, o) => PFail(k, "ShownNumber"))
+       /\ (~C15_DefaultInSystem(cfg, route, o) => PFail(k, "DefaultInSystem"))
+       /\ ((o.r.o = "num" /\ route = "defbase" /\ ~o.r.su) => TFail(k, "unit-text-of-default-in-system", [su |-> TRUE]))
        /\ ((o.r.o = "dev" /\ ~DevApplicable(n, o)) => Note(k, "magnitude-not-in-SI-dimension"))
        /\ (AsDim(o.dv) # ExpDim(ci, g, cur) => TFail(k, "dimension", [gauss |-> ExpDim(ci, g, cur) # RowDim(ci)]))
        /\ ((ExpTabUnit(ci, g, cur) /\ ~o.tab) => TFail(k, "unit-left-as-tabulated", [tab |-> TRUE]))
        /\ (ObsRoute(o) # ExpRoute(ci, cfg, route, o) => TFail(k, "route", ExpRoute(ci, cfg, route, o)))
-       /\ ((o.r.o = "bool" /\ o.r.er # ExpEq(ci, cfg, o)) => TFail(k, "eq", [er |-> ExpEq(ci, cfg, o)]))
+       /\ ((o.r.o = "bool" /\ ~o.offu /\ o.r.er # ExpEq(ci, cfg, o)) => TFail(k, "eq", [er |-> ExpEq(ci, cfg, o)]))
 CheckRel(k) ==
   LET o == Obs[k] cs == o.case IN
   /\ (~C15_Relation(cs.a, cs.cfg, o) => PFail(k, "Relation"))
